@@ -135,6 +135,28 @@ def deref_shapes():
     return out
 
 
+def not_forward_shape():
+    """`forward` on the struct is only a default: a field-level `not(forward)` switches it off for the selected field, which is then handed out
+    itself (seed C14-container-forward-ored-after-merge)."""
+    decl = ("#[derive(Clone, Copy, PartialEq, Debug, derive_more::Deref, derive_more::DerefMut)]\n#[deref(forward)]\n#[deref_mut(forward)]\n"
+            "pub struct S { #[deref(not(forward))] #[deref_mut(not(forward))] pub a: Inner, #[deref(ignore)] #[deref_mut(ignore)] pub b: Side }")
+    src = """    #[kani::proof]
+    fn not_forward_overrides_the_struct_level_default() {
+        let mut s = S { a: any_inner(), b: any_side() };
+        fn target_is<T: Deref<Target = U>, U: ?Sized>(_: &T) {}
+        target_is::<S, Inner>(&s);
+        assert!(ptr::eq::<Inner>(&*s, &s.a), "with not(forward) on the field, Deref is the field itself");
+        let want = &s.a as *const Inner as usize;
+        { let m: &mut Inner = &mut *s; assert!(m as *mut Inner as usize == want); }
+        kani::cover!(true, "reach end");
+    }
+"""
+    return [Shape("c14_deref_not_forward_on_field", module(decl, src),
+                  [Harness("not_forward_overrides_the_struct_level_default", "all field contents symbolic", covers=1,
+                           asserts="struct-level forward + field-level not(forward): Target is the field type and &*s is the field")],
+                  decl.replace("\n", " "), exercises=["impl/src/deref.rs::expand", "impl/src/deref_mut.rs::expand", "impl/src/utils.rs::MetaInfo::into_full"])]
+
+
 def index_shapes():
     out = []
     for tag, body, ctor, f, others in layouts("index"):
@@ -323,7 +345,7 @@ def as_ref_shapes():
 
 
 def shapes(tier):
-    out = deref_shapes() + index_shapes() + into_iter_shapes() + as_ref_shapes()
+    out = deref_shapes() + not_forward_shape() + index_shapes() + into_iter_shapes() + as_ref_shapes()
     # the whole grid costs ~15 s: quick and thorough run all of it
     return out
 
